@@ -647,7 +647,7 @@ func (client *client) connectWithTimeOut() (ok bool) {
 				client.opts.ClientTopicAliasMax = convertUint16(conn.Properties.TopicAliasMaximum, client.opts.ClientTopicAliasMax)
 				client.opts.AuthMethod = conn.Properties.AuthMethod
 				client.serverReceiveMaximumQuota = client.opts.ReceiveMax
-				client.aliasMapper = make([][]byte, client.opts.ReceiveMax+1)
+				client.aliasMapper = make([][]byte, int(client.opts.ServerTopicAliasMax)+1)
 				client.opts.KeepAlive = authOpts.KeepAlive
 
 				var maxQoS byte
@@ -1003,7 +1003,7 @@ func (client *client) publishHandler(pub *packets.Publish) *codes.Error {
 	msg = gmqtt.MessageFromPublish(pub)
 
 	if client.version == packets.Version5 && pub.Properties.TopicAlias != nil {
-		if *pub.Properties.TopicAlias >= client.opts.ServerTopicAliasMax {
+		if *pub.Properties.TopicAlias == 0 || *pub.Properties.TopicAlias > client.opts.ServerTopicAliasMax {
 			return &codes.Error{
 				Code: codes.TopicAliasInvalid,
 			}
